@@ -19,19 +19,26 @@ open AgModel.Pad AgModel.Merkle
 /-- the commitment a shred claims: its header fields and the root derived from payload, index and path -/
 def Shred.claimed (env : Env) (s : Shred) : Commitment := commit s.header (s.sliceRoot env)
 
-/-- `try_new` is the pinned `try_new` behind the index guard -/
-theorem validate_of_consumed (env : Env) (s : Shred) (cached : Option Commitment) (pk : Nat)
-    (h : s.indexConsumed = true) : validate env s cached pk = validateOld env s cached pk := by
-  unfold validate; simp [h]
+/-- a cache entry is *sound* for key `pk`: the signature it remembers, if any, is `pk`'s signature over its
+    commitment. Entries only come out of `ValidatedShred::commitment()` (`accepted_entry_sound`: the invariant) or
+    of `SliceCommitment::new` (no signature remembered). -/
+def Cached.Sound (pk : Nat) (e : Cached) : Prop := ∀ σ, e.sig = some σ → σ = .signed pk e.commitment
+
+def CacheSound (pk : Nat) : Option Cached → Prop
+  | none => True
+  | some e => e.Sound pk
+
+/-- a validated shred carries `pk`'s signature over its own commitment -/
+def VShred.Signed (pk : Nat) (v : VShred) : Prop := v.shred.sig = .signed pk v.commitment
 
 /-- **An index the Merkle path does not consume is rejected** (D32 `fix:`), with or without cached commitment,
     whatever the signature: never accepted and never reported as equivocation of the leader. -/
-theorem index_not_consumed_rejected (env : Env) (s : Shred) (cached : Option Commitment) (pk : Nat)
+theorem index_not_consumed_rejected (env : Env) (s : Shred) (cached : Option Cached) (pk : Nat)
     (h : s.indexConsumed = false) : validate env s cached pk = .error .invalidSignature := by
   unfold validate; simp [h]
 
 /-- whatever is accepted has an index inside the width `2 ^ path length` of the tree its path describes -/
-theorem accepted_index_consumed (env : Env) (s : Shred) (cached : Option Commitment) (pk : Nat) (x : VShred)
+theorem accepted_index_consumed (env : Env) (s : Shred) (cached : Option Cached) (pk : Nat) (x : VShred)
     (h : validate env s cached pk = .ok x) : s.indexConsumed = true ∧ s.index < 2 ^ s.path.length := by
   cases hc : s.indexConsumed with
   | false => rw [index_not_consumed_rejected env s cached pk hc] at h; cases h
@@ -40,84 +47,143 @@ theorem accepted_index_consumed (env : Env) (s : Shred) (cached : Option Commitm
     simp only [Shred.indexConsumed, decide_eq_true_eq] at hc
     exact (Nat.div_eq_zero_iff_lt (Nat.two_pow_pos _)).mp hc
 
-/-- **Accepted only if the leader signed exactly this slot, slice index, last flag and root.** Without a
-    cached commitment a shred is accepted iff its index is consumed by its path and its signature is the leader
-    key's signature over exactly (slot, slice index, last-slice flag, root derived from its payload, index and path). -/
-theorem accept_iff_signed (env : Env) (s : Shred) (pk : Nat) (v : VShred) :
-    validate env s none pk = .ok v ↔
-      (s.indexConsumed = true ∧ s.sig = .signed pk (s.claimed env) ∧ v = ⟨s, s.sliceRoot env⟩) := by
+/-- **Accepted only if the leader signed exactly this slot, slice index, last flag and root - with or without a
+    cached commitment** (D34 `fix:`; on the pinned snapshot only without cache: `cache_skips_signature_old_witness`).
+    For every sound cache state, a shred is accepted iff its index is consumed by its path, its signature is the
+    leader key's signature over exactly (slot, slice index, last-slice flag, root derived from its payload, index
+    and path), and the cached commitment, if any, is that very commitment. -/
+theorem accept_iff_signed (env : Env) (s : Shred) (pk : Nat) (cached : Option Cached) (hs : CacheSound pk cached)
+    (v : VShred) :
+    validate env s cached pk = .ok v ↔
+      (s.indexConsumed = true ∧ s.sig = .signed pk (s.claimed env) ∧
+        (∀ e, cached = some e → e.commitment = s.claimed env) ∧ v = ⟨s, s.sliceRoot env⟩) := by
   cases hc : s.indexConsumed with
-  | false => rw [index_not_consumed_rejected env s none pk hc]; simp
+  | false => rw [index_not_consumed_rejected env s cached pk hc]; simp
   | true =>
-    rw [validate_of_consumed env s none pk hc]
-    unfold validateOld Sig.verify Shred.claimed
-    by_cases h : s.sig = .signed pk (commit s.header (s.sliceRoot env))
-    · simp only [h, decide_true, if_true, Except.ok.injEq, true_and]; exact eq_comm
-    · simp [h]
+    unfold validate Sig.verify Shred.claimed Cached.shortcuts
+    simp only [hc, Bool.not_true, Bool.false_eq_true, if_false, true_and]
+    cases cached with
+    | none =>
+      by_cases h : s.sig = .signed pk (commit s.header (s.sliceRoot env))
+      · simp only [h, decide_true, Bool.not_true, Bool.false_eq_true, if_false, Except.ok.injEq, true_and]
+        constructor
+        · intro e; exact ⟨(by intro _ h; cases h), e.symm⟩
+        · intro e; exact e.2.symm
+      · simp [h]
+    | some e =>
+      by_cases hcm : e.commitment = commit s.header (s.sliceRoot env)
+      · by_cases hsg : e.sig = some s.sig
+        · have hsigned : s.sig = .signed pk (commit s.header (s.sliceRoot env)) := by
+            rw [← hcm]; exact hs s.sig hsg
+          simp only [hcm, hsg, decide_true, Bool.and_self, if_true, Except.ok.injEq, hsigned, true_and]
+          constructor
+          · intro h; exact ⟨(by intro e' he'; injection he' with he'; rw [← he']; exact hcm), h.symm⟩
+          · intro h; exact h.2.symm
+        · by_cases h : s.sig = .signed pk (commit s.header (s.sliceRoot env))
+          · rw [h] at hsg
+            simp only [hcm, hsg, h, decide_true, decide_false, Bool.and_false, Bool.false_eq_true, if_false,
+              Bool.not_true, ne_eq, not_true_eq_false, Except.ok.injEq, true_and]
+            constructor
+            · intro h'; exact ⟨(by intro e' he'; injection he' with he'; rw [← he']; exact hcm), h'.symm⟩
+            · intro h'; exact h'.2.symm
+          · simp [hcm, hsg, h]
+      · have hne : ¬ (∀ e', some e = some e' → e'.commitment = commit s.header (s.sliceRoot env)) := by
+          intro h; exact hcm (h e rfl)
+        by_cases h : s.sig = .signed pk (commit s.header (s.sliceRoot env))
+        · simp [hcm, h, hne]
+        · simp [hcm, h]
 
-/-- **A cached commitment only ever shortcuts verification of an identical commitment**: with a cached
-    commitment `c` a shred (whose index its path consumes - otherwise `index_not_consumed_rejected`) is accepted
-    iff the commitment it claims *is* `c` (then the signature is not looked at); otherwise the verdict is
+/-- everything `try_new` accepts under a sound cache carries the leader's signature over its own commitment, and the
+    cache entry it seeds (`ValidatedShred::commitment()`) is sound again: the invariant of the commitment cache -/
+theorem accepted_entry_sound (env : Env) (s : Shred) (pk : Nat) (cached : Option Cached) (hs : CacheSound pk cached)
+    (v : VShred) (h : validate env s cached pk = .ok v) : v.Signed pk ∧ v.cacheEntry.Sound pk := by
+  obtain ⟨_, h1, _, rfl⟩ := (accept_iff_signed env s pk cached hs v).mp h
+  have : VShred.Signed pk ⟨s, s.sliceRoot env⟩ := h1
+  refine ⟨this, ?_⟩
+  intro σ hσ
+  simp only [VShred.cacheEntry, Option.some.injEq] at hσ
+  rw [← hσ]; exact this
+
+/-- **No signature of the leader over the claimed commitment: rejected**, whatever is cached (sound) - in particular
+    a genuine shred whose signature bytes a relay replaced, presented while the slice's own commitment is cached. -/
+theorem unsigned_rejected (env : Env) (s : Shred) (pk : Nat) (cached : Option Cached) (hs : CacheSound pk cached)
+    (hsig : s.sig ≠ .signed pk (s.claimed env)) : validate env s cached pk = .error .invalidSignature := by
+  cases hc : s.indexConsumed with
+  | false => exact index_not_consumed_rejected env s cached pk hc
+  | true =>
+    unfold Shred.claimed at hsig
+    unfold validate Sig.verify Cached.shortcuts
+    simp only [hc, Bool.not_true, Bool.false_eq_true, if_false]
+    cases cached with
+    | none => simp [hsig]
+    | some e =>
+      by_cases hcm : e.commitment = commit s.header (s.sliceRoot env)
+      · have hsg : e.sig ≠ some s.sig := by
+          intro h; apply hsig; rw [← hcm]; exact hs s.sig h
+        simp [hsg, hsig]
+      · simp [hcm, hsig]
+
+/-- **A cached commitment only ever shortcuts verification of an identical commitment, and only for the signature
+    verified for it.** With a sound cached entry `e`, a shred (whose index its path consumes - otherwise
+    `index_not_consumed_rejected`) claiming `e`'s commitment is accepted iff it carries the leader's signature over
+    it (no signature: `InvalidSignature`, the D34 `fix:`); a shred claiming another commitment is never accepted:
     `Equivocation` iff the leader key signed the claimed commitment (two different validly signed commitments),
-    and `InvalidSignature` iff it did not — never acceptance. -/
-theorem cache_only_identical (env : Env) (s : Shred) (c : Commitment) (pk : Nat) (hcons : s.indexConsumed = true) :
-    (s.claimed env = c → validate env s (some c) pk = .ok ⟨s, s.sliceRoot env⟩) ∧
-    (s.claimed env ≠ c → s.sig = .signed pk (s.claimed env) → validate env s (some c) pk = .error .equivocation) ∧
-    (s.claimed env ≠ c → s.sig ≠ .signed pk (s.claimed env) → validate env s (some c) pk = .error .invalidSignature) := by
-  rw [validate_of_consumed env s (some c) pk hcons]
-  unfold validateOld Sig.verify Shred.claimed
-  refine ⟨?_, ?_, ?_⟩
-  · intro h; simp [h]
-  · intro h1 h2; simp [h2, Ne.symm h1]
-  · intro h1 h2; simp [h2, Ne.symm h1]
+    `InvalidSignature` iff it did not. -/
+theorem cache_only_identical (env : Env) (s : Shred) (e : Cached) (pk : Nat) (hcons : s.indexConsumed = true)
+    (hs : e.Sound pk) :
+    (s.claimed env = e.commitment → s.sig = .signed pk (s.claimed env) → validate env s (some e) pk = .ok ⟨s, s.sliceRoot env⟩) ∧
+    (s.claimed env = e.commitment → s.sig ≠ .signed pk (s.claimed env) → validate env s (some e) pk = .error .invalidSignature) ∧
+    (s.claimed env ≠ e.commitment → s.sig = .signed pk (s.claimed env) → validate env s (some e) pk = .error .equivocation) ∧
+    (s.claimed env ≠ e.commitment → s.sig ≠ .signed pk (s.claimed env) → validate env s (some e) pk = .error .invalidSignature) := by
+  refine ⟨?_, ?_, ?_, ?_⟩
+  · intro h1 h2
+    exact (accept_iff_signed env s pk (some e) hs _).mpr ⟨hcons, h2, (by intro e' he'; injection he' with he'; rw [← he', h1]), rfl⟩
+  · intro _ h2; exact unsigned_rejected env s pk (some e) hs h2
+  · intro h1 h2
+    unfold Shred.claimed at h1 h2
+    unfold validate Sig.verify Cached.shortcuts
+    simp [hcons, h2, Ne.symm h1]
+  · intro _ h2; exact unsigned_rejected env s pk (some e) hs h2
 
 /-- **Equivocation is reported only for two different commitments both signed by the leader key**: a correct
     leader (whose key signs one commitment per slot and slice) is never reported by `try_new`. -/
-theorem equivocation_only_if_two_signed (env : Env) (s : Shred) (cached : Option Commitment) (pk : Nat)
+theorem equivocation_only_if_two_signed (env : Env) (s : Shred) (cached : Option Cached) (pk : Nat)
     (h : validate env s cached pk = .error .equivocation) :
-    ∃ c, cached = some c ∧ c ≠ s.claimed env ∧ s.sig = .signed pk (s.claimed env) := by
+    ∃ e, cached = some e ∧ e.commitment ≠ s.claimed env ∧ s.sig = .signed pk (s.claimed env) := by
   cases hc : s.indexConsumed with
   | false => rw [index_not_consumed_rejected env s cached pk hc] at h; cases h
   | true =>
-    rw [validate_of_consumed env s cached pk hc] at h
-    unfold validateOld Sig.verify Shred.claimed at *
+    unfold validate Sig.verify Shred.claimed Cached.shortcuts at *
+    simp only [hc, Bool.not_true, Bool.false_eq_true, if_false] at h
     cases cached with
-    | none => simp only at h; split at h <;> simp at h
-    | some c =>
-      refine ⟨c, rfl, ?_⟩
+    | none => simp only at h; split at h <;> (try split at h) <;> simp at h
+    | some e =>
+      refine ⟨e, rfl, ?_⟩
       simp only at h
       split at h
       · simp at h
-      · rename_i hne
-        split at h
-        · rename_i hs; exact ⟨hne, by simpa using hs⟩
+      · split at h
         · simp at h
+        · rename_i hv
+          split at h
+          · rename_i hne; exact ⟨hne, by simpa using hv⟩
+          · simp at h
 
 /-- **Replay / header mutation is rejected**: a signature of the leader over commitment `c` makes a shred
     acceptable only for exactly `c`'s slot, slice index, last flag and root. Altering any of them (or
     replaying the shred under another slot / slice / position, which changes the derived root or the header)
-    gives `InvalidSignature` — with or without a cached commitment, unless the claimed commitment is the cached one. -/
-theorem replay_rejected (env : Env) (s : Shred) (pk : Nat) (c : Commitment) (cached : Option Commitment)
-    (hsig : s.sig = .signed pk c)
-    (hmut : s.header.slot ≠ c.slot ∨ s.header.sliceIdx ≠ c.sliceIdx ∨ s.header.isLast ≠ c.isLast ∨ s.sliceRoot env ≠ c.root)
-    (hcache : cached ≠ some (s.claimed env)) :
+    gives `InvalidSignature` — with or without a (sound) cached commitment. (Before the D34 fix: unless the claimed
+    commitment was the cached one.) -/
+theorem replay_rejected (env : Env) (s : Shred) (pk : Nat) (c : Commitment) (cached : Option Cached)
+    (hs : CacheSound pk cached) (hsig : s.sig = .signed pk c)
+    (hmut : s.header.slot ≠ c.slot ∨ s.header.sliceIdx ≠ c.sliceIdx ∨ s.header.isLast ≠ c.isLast ∨ s.sliceRoot env ≠ c.root) :
     validate env s cached pk = .error .invalidSignature := by
-  cases hc : s.indexConsumed with
-  | false => exact index_not_consumed_rejected env s cached pk hc
-  | true =>
-    rw [validate_of_consumed env s cached pk hc]
-    have hne : Sig.signed pk c ≠ .signed pk (commit s.header (s.sliceRoot env)) := by
-      intro h
-      injection h with _ h
-      subst h
-      simp [commit] at hmut
-    unfold validateOld Sig.verify
-    cases cached with
-    | none => simp [hsig, hne]
-    | some c' =>
-      have : c' ≠ commit s.header (s.sliceRoot env) := by
-        intro h; apply hcache; rw [h]; rfl
-      simp [hsig, hne, this]
+  apply unsigned_rejected env s pk cached hs
+  rw [hsig]
+  intro h
+  injection h with _ h
+  subst h
+  simp [Shred.claimed, commit] at hmut
 
 /-! ### binding to the position inside the signed tree -/
 
@@ -195,45 +261,24 @@ theorem root_binds_leader_position (env : Env) (L : env.Laws) (v : Variant) (sl 
   · simp [mkShred, hdata]
   · simp [mkShred, hpath, hT]
 
-/-- **Mutations of a valid shred are rejected** (single-field and combined): whatever is accepted — without
-    cache, or with the slice's cached commitment — under a correct leader's key and that leader's signature for
-    the slice is the leader's own shred at that index: same slot, slice index, last flag, payload bytes and
-    Merkle path, at an index below 64 (a conclusion since the D32 fix, not a hypothesis). Only the data/coding tag
-    may differ (defect D15). Full statement (fails only for the tag): `… → s = l.shred`. -/
+/-- **Mutations of a valid shred are rejected** (single-field and combined): whatever is accepted — with *any*
+    sound cache state (none, the slice's own commitment, anything else) — under a correct leader's key and that
+    leader's signature for the slice is the leader's own shred at that index: same slot, slice index, last flag,
+    payload bytes and Merkle path, at an index below 64 (a conclusion since the D32 fix, not a hypothesis). Only the
+    data/coding tag may differ (defect D15). Full statement (fails only for the tag): `… → s = l.shred`. -/
 theorem accepted_is_leader_shred_partial (env : Env) (L : env.Laws) (v : Variant) (sl : Slice) (sk : Nat) (key : Bytes)
     (s : Shred) (x : VShred)
-    (cached : Option Commitment) (hcache : cached = none ∨ cached = some (commit sl.header (leaderTree env v sl key).root))
+    (cached : Option Cached) (hcache : CacheSound sk cached)
     (hsig : s.sig = .signed sk (commit sl.header (leaderTree env v sl key).root))
     (hok : validate env s cached sk = .ok x) :
     s.index < TOTAL ∧
     ∃ l, (leaderOut env v sl sk key)[s.index]? = some l ∧ s = { l.shred with isData := s.isData } ∧
       x = ⟨s, (leaderTree env v sl key).root⟩ := by
-  obtain ⟨hcons, _⟩ := accepted_index_consumed env s cached sk x hok
-  have hclaim : s.claimed env = commit sl.header (leaderTree env v sl key).root ∧ x = ⟨s, s.sliceRoot env⟩ := by
-    rcases hcache with rfl | rfl
-    · obtain ⟨_, h1, h2⟩ := (accept_iff_signed env s sk x).mp hok
-      rw [hsig] at h1
-      injection h1 with _ h1
-      exact ⟨h1.symm, h2⟩
-    · by_cases hc : s.claimed env = commit sl.header (leaderTree env v sl key).root
-      · have := (cache_only_identical env s _ sk hcons).1 hc
-        rw [this] at hok
-        injection hok with hok
-        exact ⟨hc, hok.symm⟩
-      · have := (replay_rejected env s sk _ (some (commit sl.header (leaderTree env v sl key).root)) hsig
-          (by
-            unfold Shred.claimed commit at hc
-            by_cases h1 : s.header.slot = sl.header.slot
-            · by_cases h2 : s.header.sliceIdx = sl.header.sliceIdx
-              · by_cases h3 : s.header.isLast = sl.header.isLast
-                · right; right; right
-                  intro h4; apply hc; simp [h1, h2, h3, h4, commit]
-                · right; right; left; simpa [commit] using h3
-              · right; left; simpa [commit] using h2
-            · left; simpa [commit] using h1)
-          (by intro h; injection h with h; exact hc h.symm))
-        rw [this] at hok; cases hok
-  obtain ⟨hc, hx⟩ := hclaim
+  obtain ⟨hcons, h1, hcm, hx⟩ := (accept_iff_signed env s sk cached hcache x).mp hok
+  rw [hsig] at h1
+  injection h1 with hk hc0
+  have hc := hc0.symm
+  clear hc0 hcm hk
   unfold Shred.claimed commit at hc
   injection hc with h1 h2 h3 h4
   obtain ⟨hidx, l, hl, hd, hp⟩ := root_binds_leader_position env L v sl sk key s hcons h4
@@ -243,6 +288,7 @@ theorem accepted_is_leader_shred_partial (env : Env) (L : env.Laws) (v : Variant
     cases hs : s.header; cases hsl : sl.header
     simp only [hs, hsl] at h1 h2 h3
     simp [h1, h2, h3]
+  clear hok hcache hcons hx
   cases s; cases l with
   | mk ls lr =>
     cases ls
@@ -411,23 +457,210 @@ theorem gate_honest_never_flagged_partial (C : Nat → Commitment) (last : Optio
       simp [hm, hgl, this]
       exact ⟨⟨hc, fun a b h => hcache (a, b) h⟩, by simpa [hgl] using hlast, hl2, fun a b h l hl => hbound (a, b) h l hl⟩
 
+/-- the commitment cache of the gate is sound for the leader key: entry by entry, `sigs` holds the leader's
+    signature over the commitment `cache` holds for the same slice index -/
+def sigsSound (pk : Nat) : List (Nat × Commitment) → List (Nat × Sig) → Prop
+  | [], [] => True
+  | c :: cs, σ :: σs => c.1 = σ.1 ∧ σ.2 = .signed pk c.2 ∧ sigsSound pk cs σs
+  | _, _ => False
+
+def Gate.SigSound (pk : Nat) (g : Gate) : Prop := sigsSound pk g.cache g.sigs
+
+theorem sigsSound_find (pk : Nat) (cs : List (Nat × Commitment)) (σs : List (Nat × Sig)) (h : sigsSound pk cs σs)
+    (idx : Nat) (c : Nat × Commitment) (hc : cs.find? (·.1 == idx) = some c) :
+    ∃ σ, σs.find? (·.1 == idx) = some σ ∧ σ.2 = .signed pk c.2 := by
+  induction cs generalizing σs with
+  | nil => simp at hc
+  | cons c0 cs ih =>
+    cases σs with
+    | nil => simp [sigsSound] at h
+    | cons σ0 σs =>
+      obtain ⟨h1, h2, h3⟩ := h
+      by_cases hk : c0.1 = idx
+      · have hk' : σ0.1 = idx := by rw [← h1]; exact hk
+        simp only [List.find?_cons, hk, beq_self_eq_true, Option.some.injEq] at hc
+        subst hc
+        exact ⟨σ0, by simp [List.find?_cons, hk'], h2⟩
+      · have hk' : ¬ σ0.1 = idx := by rw [← h1]; exact hk
+        have hb : (c0.1 == idx) = false := by simpa using hk
+        have hb' : (σ0.1 == idx) = false := by simpa using hk'
+        simp only [List.find?_cons, hb] at hc
+        obtain ⟨σ, hσ, hs⟩ := ih σs h3 hc
+        exact ⟨σ, by simp only [List.find?_cons, hb']; exact hσ, hs⟩
+
+/-- every entry `cached_commitment` hands to `try_new` is sound -/
+theorem gate_entry_sound (pk : Nat) (g : Gate) (hg : g.SigSound pk) (idx : Nat) : CacheSound pk (g.cachedEntry idx) := by
+  unfold Gate.cachedEntry Gate.cached
+  cases hf : g.cache.find? (·.1 == idx) with
+  | none => simp [CacheSound]
+  | some c =>
+    obtain ⟨σ, hσ, hs⟩ := sigsSound_find pk g.cache g.sigs hg idx c hf
+    simp only [Option.map_some, CacheSound, Cached.Sound, hσ, Option.some.injEq]
+    intro σ' h; rw [← h]; exact hs
+
+/-- the gate keeps its cache sound when it is fed shreds that carry the leader's signature -/
+theorem gate_add_sigsound (pk : Nat) (g : Gate) (v : VShred) (hg : g.SigSound pk) (hv : v.Signed pk) :
+    (g.add v).1.SigSound pk := by
+  have hcons : sigsSound pk ((v.shred.header.sliceIdx, v.commitment) :: g.cache) ((v.shred.header.sliceIdx, v.shred.sig) :: g.sigs) :=
+    ⟨rfl, hv, hg⟩
+  have key : ((g.add v).1.cache = g.cache ∧ (g.add v).1.sigs = g.sigs) ∨
+      ((g.add v).1.cache = (v.shred.header.sliceIdx, v.commitment) :: g.cache ∧
+        (g.add v).1.sigs = (v.shred.header.sliceIdx, v.shred.sig) :: g.sigs) := by
+    unfold Gate.add
+    dsimp only
+    repeat' split
+    all_goals simp
+  unfold Gate.SigSound
+  rcases key with ⟨h1, h2⟩ | ⟨h1, h2⟩
+  · rw [h1, h2]; exact hg
+  · rw [h1, h2]; exact hcons
+
+/-- **The node only ever caches, stores and forwards shreds that carry the leader's signature** (D34 `fix:`):
+    the soundness of the commitment cache is an invariant of `handle_disseminator_shred` (it holds for the empty
+    blockstore), and whatever the handler accepts - with or without cache hit - is signed by the leader key over
+    its own commitment. -/
+theorem node_cache_sound (env : Env) (g : Gate) (s : Shred) (pk : Nat) (hg : g.SigSound pk) :
+    (g.nodeHandle env s pk).SigSound pk ∧
+    ∀ v, validate env s (g.cachedEntry s.header.sliceIdx) pk = .ok v → v.Signed pk := by
+  have hs := gate_entry_sound pk g hg s.header.sliceIdx
+  refine ⟨?_, fun v hv => (accepted_entry_sound env s pk _ hs v hv).1⟩
+  unfold Gate.nodeHandle
+  cases hv : validate env s (g.cachedEntry s.header.sliceIdx) pk with
+  | ok v => exact gate_add_sigsound pk g v hg (accepted_entry_sound env s pk _ hs v hv).1
+  | error e => cases e <;> exact hg
+
+theorem gate_empty_sigsound (pk : Nat) : ({} : Gate).SigSound pk := trivial
+
 /-- **The node reports a conflicting signed commitment** (after the D16 `fix:`): when the blockstore already
     caches a commitment for the slice and a shred arrives that the leader key validly signed for a *different*
     commitment of that slot and slice, `handle_disseminator_shred` flags the leader (the snapshot dropped the
     `Equivocation` verdict of `try_new` silently, so at node level the conflict was never reported). -/
-theorem node_conflict_reported (env : Env) (g : Gate) (s : Shred) (pk : Nat) (c : Commitment)
+theorem node_conflict_reported (env : Env) (g : Gate) (s : Shred) (pk : Nat) (e : Cached)
     (hcons : s.indexConsumed = true)
-    (hc : g.cached s.header.sliceIdx = some c) (hne : s.claimed env ≠ c) (hsig : s.sig = .signed pk (s.claimed env)) :
+    (hc : g.cachedEntry s.header.sliceIdx = some e) (hne : s.claimed env ≠ e.commitment)
+    (hsig : s.sig = .signed pk (s.claimed env)) :
     (g.nodeHandle env s pk).misbehaved = true := by
   unfold Gate.nodeHandle
-  rw [hc, (cache_only_identical env s c pk hcons).2.1 hne hsig]
+  have : validate env s (some e) pk = .error .equivocation := by
+    unfold Shred.claimed at hne hsig
+    unfold validate Sig.verify Cached.shortcuts
+    simp [hcons, hsig, Ne.symm hne]
+  rw [hc, this]
 
 /-- a shred with a bad signature, or one that merely fails to match the cache without a valid signature, never
     changes the node's gate (so it cannot flag a correct leader) -/
 theorem node_invalid_ignored (env : Env) (g : Gate) (s : Shred) (pk : Nat)
-    (h : validate env s (g.cached s.header.sliceIdx) pk = .error .invalidSignature) :
+    (h : validate env s (g.cachedEntry s.header.sliceIdx) pk = .error .invalidSignature) :
     g.nodeHandle env s pk = g := by
   unfold Gate.nodeHandle; rw [h]
+
+/-- **A genuine shred whose signature a relay replaced is ignored by the node, cache hit or not** (D34 `fix:`): it
+    is neither stored nor does it touch the cache or the leader's standing. -/
+theorem node_unsigned_ignored (env : Env) (g : Gate) (s : Shred) (pk : Nat) (hg : g.SigSound pk)
+    (hsig : s.sig ≠ .signed pk (s.claimed env)) : g.nodeHandle env s pk = g :=
+  node_invalid_ignored env g s pk (unsigned_rejected env s pk _ (gate_entry_sound pk g hg _) hsig)
+
+/-! ### what a node stores and serves carries the leader's signature (D34 `fix:`) -/
+
+/-- a stored shred a repair peer accepts: `try_new(shred, None, leader_pk)` succeeds and returns it -/
+def VShred.Valid (env : Env) (pk : Nat) (x : VShred) : Prop := validate env x.shred none pk = .ok x
+
+/-- everything `try_new` accepts under a sound cache is also accepted without any cache (so: by a repair peer) -/
+theorem accepted_valid_without_cache (env : Env) (s : Shred) (pk : Nat) (cached : Option Cached)
+    (hs : CacheSound pk cached) (v : VShred) (h : validate env s cached pk = .ok v) : v.Valid env pk := by
+  obtain ⟨h1, h2, _, rfl⟩ := (accept_iff_signed env s pk cached hs v).mp h
+  exact (accept_iff_signed env s pk none trivial _).mpr ⟨h1, h2, (by intro e he; cases he), rfl⟩
+
+theorem fillAux_mem (mk : Nat → Bytes → VShred) (k : Nat) (raws : List Bytes) (shreds : List (Option VShred))
+    (y : VShred) (h : some y ∈ fillAux mk k raws shreds) :
+    some y ∈ shreds ∨ ∃ i d, raws[i]? = some d ∧ y = mk (k + i) d := by
+  induction raws generalizing k shreds with
+  | nil => left; simpa [fillAux] using h
+  | cons d ds ih =>
+    cases shreds with
+    | nil => simp [fillAux] at h
+    | cons s ss =>
+      simp only [fillAux, List.mem_cons] at h
+      rcases h with h | h
+      · cases s with
+        | some x => left; simp only at h; rw [h]; exact List.mem_cons_self
+        | none =>
+          right; simp only [Option.some.injEq] at h
+          exact ⟨0, d, by simp, by simpa using h⟩
+      · rcases ih (k + 1) ss h with h | ⟨i, d', hi, hy⟩
+        · left; exact List.mem_cons_of_mem _ h
+        · right; exact ⟨i + 1, d', by simpa using hi, by rw [hy]; congr 1; omega⟩
+
+/-- **Every shred a node holds after reconstructing a slice is one a repair peer accepts.** If each shred the
+    blockstore stored for a slice passes `try_new(_, None, leader_pk)` (which everything ingested through the
+    validated paths does since the D34 fix: `accepted_valid_without_cache`, `node_cache_sound`), then after a
+    successful `Shredder::deshred` *every* shred of the array - the stored ones and the regenerated ones, which get
+    the first stored shred's header and signature and the recomputed tree's proofs - passes it too. (On the pinned
+    snapshot the premise failed for a junk-signature shred accepted on a cache hit, and so did the conclusion:
+    `cache_skips_signature_old_witness`.) -/
+theorem reconstructed_shreds_validate (env : Env) (v : Variant) (shreds : List (Option VShred)) (pk : Nat)
+    (rs : RSlice) (out : List (Option VShred)) (h : deshred env v shreds = .ok (rs, out))
+    (hvalid : ∀ x, some x ∈ shreds → x.Valid env pk) :
+    ∀ y, some y ∈ out → y.Valid env pk := by
+  unfold deshred at h
+  split at h
+  · cases h
+  · split at h
+    · cases h
+    · cases h
+    · split at h
+      · cases h
+      · rename_i pb raw _
+        split at h
+        · cases h
+        · rename_i a ha
+          simp only at h
+          split at h
+          · cases h
+          · rename_i hroot
+            split at h
+            · cases h
+            · split at h
+              · cases h
+              · rename_i out' hfill
+                injection h with h
+                injection h with _ hout
+                subst hout
+                have hroot : (buildTree env raw).root = a.root := by simpa using hroot
+                unfold fillMissing at hfill
+                split at hfill
+                · cases hfill
+                · rename_i hlen
+                  have hlen : raw.data.length + raw.coding.length = 64 := by rw [← TOTAL_eq]; simpa using hlen
+                  injection hfill with hfill
+                  subst hfill
+                  have ha_valid : a.Valid env pk := hvalid a (anyShred_mem _ _ ha)
+                  obtain ⟨_, hasig, _, haeq⟩ := (accept_iff_signed env a.shred pk none trivial a).mp ha_valid
+                  have haroot : a.root = a.shred.sliceRoot env := by
+                    have := congrArg VShred.root haeq; simpa using this
+                  intro y hy
+                  rcases fillAux_mem _ _ _ _ _ hy with hy | ⟨i, d, hi, rfl⟩
+                  · exact hvalid y hy
+                  · -- a regenerated shred
+                    have hi64 : i < (raw.data ++ raw.coding).length := (List.getElem?_eq_some_iff.mp hi).1
+                    have hl : ((raw.data ++ raw.coding).map env.leafId).length = 64 := by simp [hlen]
+                    have hc := complete ((raw.data ++ raw.coding).map env.leafId) i (by simpa using hi64)
+                      (by rw [hl]; decide)
+                    have hleaf : ((raw.data ++ raw.coding).map env.leafId).getD i 0 = env.leafId d := by
+                      rw [List.getD_eq_getElem?_getD, List.getElem?_map, hi]; rfl
+                    rw [hleaf] at hc
+                    unfold checkProof checkHashProof at hc
+                    simp only [Bool.and_eq_true, decide_eq_true_eq] at hc
+                    obtain ⟨⟨_, hz⟩, hr⟩ := hc
+                    rw [deriveRootIdx_snd] at hz
+                    unfold VShred.Valid
+                    refine (accept_iff_signed env _ pk none trivial _).mpr ⟨?_, ?_, (by intro e he; cases he), ?_⟩
+                    · simp only [mkShred, Nat.zero_add, Shred.indexConsumed, decide_eq_true_eq]; exact hz
+                    · simp only [mkShred, Nat.zero_add, Shred.claimed, Shred.sliceRoot, buildTree]
+                      rw [hr, hasig]
+                      simp only [Shred.claimed, ← haroot, ← hroot, buildTree]
+                    · simp only [mkShred, Nat.zero_add, Shred.sliceRoot, buildTree]
+                      rw [hr]
 
 /-! ### the tag is not bound (defect D15) and non-vacuity -/
 
@@ -455,13 +688,13 @@ def errIs (r : Except VErr VShred) (e : VErr) : Bool :=
 theorem tag_not_bound_witness :
     okIs (validate toyEnv wS none 5) (wOut.getD 3 default) ∧
     okIs (validate toyEnv wFlipped none 5) ⟨wFlipped, (wOut.getD 3 default).root⟩ ∧
-    okIs (validate toyEnv wFlipped (some (wOut.getD 40 default).commitment) 99) ⟨wFlipped, (wOut.getD 3 default).root⟩ ∧
+    okIs (validate toyEnv wFlipped (some (wOut.getD 40 default).cacheEntry) 99) ⟨wFlipped, (wOut.getD 3 default).root⟩ ∧
     deshred toyEnv .regular ((selectFrom (fun i => i < 32) 0 wOut).set 3 (some ⟨wFlipped, (wOut.getD 3 default).root⟩))
       = .err .invalidLayout ∧
     errIs (validate toyEnv { wS with data := wS.data.set 0 77 } none 5) .invalidSignature ∧
     errIs (validate toyEnv { wS with header := { wS.header with slot := 8 } } none 5) .invalidSignature ∧
     errIs (validate toyEnv { wS with index := 4 } none 5) .invalidSignature ∧
-    errIs (validate toyEnv { wS with index := 4 } (some (wOut.getD 40 default).commitment) 5) .invalidSignature ∧
+    errIs (validate toyEnv { wS with index := 4 } (some (wOut.getD 40 default).cacheEntry) 5) .invalidSignature ∧
     errIs (validate toyEnv wS none 6) .invalidSignature := by
   decide +kernel
 
@@ -471,6 +704,8 @@ theorem tag_not_bound_witness :
 def wLeaves2 : List Bytes := [(wOut.getD 0 default).shred.data, (wOut.getD 1 default).shred.data]
 def wTree2 : Tree := Tree.new (wLeaves2.map toyEnv.leafId)
 def wCommit2 : Commitment := commit wS.header wTree2.root
+/-- the cache entry a validated shred of that slice seeds: the commitment with the leader's signature -/
+def wEntry2 : Cached := ⟨wCommit2, some (.signed 5 wCommit2)⟩
 /-- the genuine shred at position `i` of that two-leaf slice (1-hash path), signed by key 5 -/
 def wShort (i : Nat) : Shred := ⟨true, wS.header, i, wLeaves2.getD i [], .signed 5 wCommit2, wTree2.createProof i⟩
 /-- shred 0 relabelled as index `0 + k * 2` by a relay: same payload, same path, same derived root -/
@@ -492,17 +727,52 @@ theorem index_alias_old_witness :
     okIs (validateOld toyEnv (wOne 63) none 5) ⟨wOne 63, wTree1.root⟩ ∧
     errIs (validate toyEnv (wAlias 1) none 5) .invalidSignature ∧
     errIs (validate toyEnv (wAlias 31) none 5) .invalidSignature ∧
-    errIs (validate toyEnv (wAlias 1) (some wCommit2) 5) .invalidSignature ∧
-    errIs (validate toyEnv (wAlias 1) (some (wOut.getD 40 default).commitment) 5) .invalidSignature ∧
+    errIs (validate toyEnv (wAlias 1) (some wEntry2) 5) .invalidSignature ∧
+    errIs (validate toyEnv (wAlias 1) (some (wOut.getD 40 default).cacheEntry) 5) .invalidSignature ∧
     errIs (validate toyEnv (wOne 63) none 5) .invalidSignature ∧
-    errIs (validate toyEnv (wOne 1) (some (commit wS.header wTree1.root)) 5) .invalidSignature ∧
+    errIs (validate toyEnv (wOne 1) (some ⟨commit wS.header wTree1.root, some (.signed 5 (commit wS.header wTree1.root))⟩) 5) .invalidSignature ∧
     okIs (validate toyEnv (wShort 0) none 5) ⟨wShort 0, wTree2.root⟩ ∧
     okIs (validate toyEnv (wShort 1) none 5) ⟨wShort 1, wTree2.root⟩ ∧
-    okIs (validate toyEnv (wShort 1) (some wCommit2) 99) ⟨wShort 1, wTree2.root⟩ ∧
+    okIs (validate toyEnv (wShort 1) (some wEntry2) 99) ⟨wShort 1, wTree2.root⟩ ∧
     okIs (validate toyEnv (wOne 0) none 5) ⟨wOne 0, wTree1.root⟩ ∧
-    errIs (validate toyEnv (wShort 1) (some (wOut.getD 40 default).commitment) 5) .equivocation ∧
+    errIs (validate toyEnv (wShort 1) (some (wOut.getD 40 default).cacheEntry) 5) .equivocation ∧
     ((wShort 1).indexConsumed = true ∧ (wShort 1).sliceRoot toyEnv = (Tree.new (wLeaves2.map toyEnv.leafId)).root ∧
       wLeaves2 ≠ [] ∧ wTree2.height = 1) := by
+  decide +kernel
+
+/-! #### the cache hit skipped the signature (defect D34, repaired) -/
+
+/-- a genuine shred of the correct leader whose signature bytes a relay replaced -/
+def wJunk (i : Nat) : Shred := { (wOut.getD i default).shred with sig := .junk 7 }
+/-- the same with a valid signature of *another* key over the very same commitment -/
+def wForeign : Shred := { wS with sig := .signed 6 (wOut.getD 3 default).commitment }
+/-- 32 shreds (indices 0..31) of the slice, the one at index 0 carrying the junk signature -/
+def wStored : List (Option VShred) :=
+  (selectFrom (fun i => i < 32) 0 wOut).set 0 (some ⟨wJunk 0, (wOut.getD 0 default).root⟩)
+/-- the signature of shred `j` in the array `deshred` leaves behind -/
+def sigAfter (j : Nat) : Option Sig :=
+  match deshred toyEnv .regular wStored with
+  | .ok (_, out) => (out.getD j none).map (·.shred.sig)
+  | _ => none
+
+/-- **Witness of D34 and of its repair.** Pinned `try_new` (`validateCacheOld`): once the slice's commitment is
+    cached, shred 3 with a garbage signature is accepted - under any key - although the same shred is refused without
+    cache (what a repair peer does); stored at index 0 it is the shred `deshred` copies the signature from, so that
+    every regenerated shred (e.g. 40, 63) carries the garbage. Repaired `try_new`: `InvalidSignature` with the cache
+    hit (never `Equivocation`, also for a valid signature of a foreign key over the same commitment); a genuine shred
+    still takes the shortcut without its key being looked at; an entry that remembers no signature never shortcuts. -/
+theorem cache_skips_signature_old_witness :
+    okIs (validateCacheOld toyEnv (wJunk 3) (some (wOut.getD 40 default).commitment) 5) ⟨wJunk 3, (wOut.getD 3 default).root⟩ ∧
+    okIs (validateCacheOld toyEnv (wJunk 3) (some (wOut.getD 40 default).commitment) 99) ⟨wJunk 3, (wOut.getD 3 default).root⟩ ∧
+    errIs (validateCacheOld toyEnv (wJunk 3) none 5) .invalidSignature ∧
+    sigAfter 40 = some (.junk 7) ∧ sigAfter 63 = some (.junk 7) ∧ sigAfter 5 = some (wOut.getD 5 default).shred.sig ∧
+    errIs (validate toyEnv (wJunk 3) (some (wOut.getD 40 default).cacheEntry) 5) .invalidSignature ∧
+    errIs (validate toyEnv (wJunk 3) none 5) .invalidSignature ∧
+    errIs (validate toyEnv wForeign (some (wOut.getD 40 default).cacheEntry) 5) .invalidSignature ∧
+    okIs (validate toyEnv wForeign (some (wOut.getD 40 default).cacheEntry) 6) ⟨wForeign, (wOut.getD 3 default).root⟩ ∧
+    okIs (validate toyEnv wS (some (wOut.getD 40 default).cacheEntry) 99) (wOut.getD 3 default) ∧
+    errIs (validate toyEnv wS (some ⟨(wOut.getD 40 default).commitment, none⟩) 99) .invalidSignature ∧
+    okIs (validate toyEnv wS (some ⟨(wOut.getD 40 default).commitment, none⟩) 5) (wOut.getD 3 default) := by
   decide +kernel
 
 end Witness
